@@ -184,13 +184,15 @@ def spec_event(d, fc, st, bg, fg_text, bg_text, cat="valid"):
     return e
 
 
-def pair_event(d, fa, ba, fb, bb):
+def pair_event(d, fa, ba, fb, bb, d2=None):
+    """Two objects compared with == / != / hash.  d2: the second object is built at another depth; whether such objects are
+    equal is not fixed by the property, only that equal objects hash alike (the depth-dependent clause is skipped)."""
     a, xa = construct(d, fa, ba)
-    b, xb = construct(d, fb, bb)
+    b, xb = construct(d if d2 is None else d2, fb, bb)
     if a is None or b is None:
         return None
-    return {"t": "pair", "d": d, "skip": [], "a": look(a), "b": look(b), "eq": int(a == b), "ne": int(a != b),
-            "fi": fa, "bi": ba, "fi2": fb, "bi2": bb}
+    return {"t": "pair", "d": d, "d2": d if d2 is None else d2, "skip": [] if d2 is None else ["equal_means_same_colours_and_settings"],
+            "a": look(a), "b": look(b), "eq": int(a == b), "ne": int(a != b), "fi": fa, "bi": ba, "fi2": fb, "bi2": bb}
 
 
 # ---------------------------------------------------------------------------------------------------------------
@@ -379,6 +381,13 @@ def build_pairs(chk, d, events, quick):
         p = pair_event(d, a["fi"], a["bi"], b["fi"], b["bi"])
         if p:
             out.append(p)
+    # the same texts at another depth: equal or not, but equal objects must hash alike
+    for _ in range(200 if quick else 4000):
+        a = rng.choice(groups[rng.choice(keys)])
+        p = pair_event(d, a["fi"], a["bi"], a["fi"], a["bi"], d2=rng.choice([x for x in (1, 16, 88, 256, 2 ** 24) if x != d]))
+        if p:
+            out.append(p)
+            chk.count("pair.cross_depth." + ("equal" if p["eq"] else "unequal"))
     # same colour, different texts, same settings in another order
     for _ in range(150 if quick else 3000):
         a = rng.choice(groups[rng.choice(keys)])
@@ -437,7 +446,7 @@ def _sig(e, why):
 
 def _replay_of(e):
     keep = {k: e[k] for k in ("t", "d", "fi", "bi") if k in e}
-    for k in ("fc", "st", "bg", "cat", "fi2", "bi2"):
+    for k in ("fc", "st", "bg", "cat", "fi2", "bi2", "d2"):
         if k in e:
             keep[k] = e[k]
     keep["observed"] = {k: v for k, v in e.items() if k not in keep and k not in ("fs", "bs", "qfs", "qbs")}
@@ -621,7 +630,7 @@ def replay(chk, path):
         book_models(chk, run_models(True))
         return chk.finish()
     if rp["t"] == "pair":
-        e = pair_event(rp["d"], rp["fi"], rp["bi"], rp["fi2"], rp["bi2"])
+        e = pair_event(rp["d"], rp["fi"], rp["bi"], rp["fi2"], rp["bi2"], d2=rp.get("d2") if rp.get("d2") != rp["d"] else None)
     else:
         e = spec_event(rp["d"], rp["fc"], rp["st"], rp["bg"], rp["fi"], rp["bi"], cat=rp.get("cat", "valid"))
     judge(chk, [e], "replay")
